@@ -276,11 +276,49 @@ pub fn decode_build_case(t: &mut Tape, x: &mut Tape, max_n: usize, cap: Option<u
         // edges at one function for the biggest cases
         let hub = t.below(n);
         let out = t.chance(1, 2);
-        for v in 0..n {
-            if v != hub {
-                let k = if t.chance(1, 2) { Kind::Contains } else { Kind::Logic };
-                edges.push(if out { (hub, v, k) } else { (v, hub, k) });
+        // most functions are the fan's leaves; a few stay outside and become the hub's
+        // other side (successors of a fan-in hub / predecessors of a fan-out hub), and
+        // a few chains among the leaves give them different ranks
+        let outside: Vec<usize> = (0..n).filter(|v| *v != hub && t.chance(1, 24)).collect();
+        let leaves: Vec<usize> = (0..n).filter(|v| *v != hub && !outside.contains(v)).collect();
+        let kind = |t: &mut Tape| if t.chance(1, 2) { Kind::Contains } else { Kind::Logic };
+        for _ in 0..t.below(6) {
+            // a chain of 2..=12 leaves
+            let len = 2 + t.below(11);
+            let start = t.below(leaves.len().max(1));
+            let chain: Vec<usize> = leaves.iter().copied().cycle().skip(start).step_by(1 + t.below(5)).take(len).collect();
+            for w in chain.windows(2) {
+                if w[0] != w[1] {
+                    let k = kind(t);
+                    edges.push((w[0], w[1], k));
+                }
             }
+        }
+        let mut star: Vec<(usize, usize, Kind)> = vec![];
+        for &v in &leaves {
+            let k = kind(t);
+            star.push(if out { (hub, v, k) } else { (v, hub, k) });
+        }
+        // declaration order of the fan's edges: as is, reversed, or rotated
+        match t.below(3) {
+            0 => {}
+            1 => star.reverse(),
+            _ => {
+                let r = t.below(star.len().max(1));
+                star.rotate_left(r);
+            }
+        }
+        // chains first or fan first
+        if t.chance(1, 2) {
+            edges.extend(star);
+        } else {
+            let chains = std::mem::take(&mut edges);
+            edges.extend(star);
+            edges.extend(chains);
+        }
+        for &v in &outside {
+            let k = kind(t);
+            edges.push(if out { (v, hub, k) } else { (hub, v, k) });
         }
     } else if n >= 1 {
         let max_m = if large {
@@ -1865,4 +1903,85 @@ pub fn build_histories(prop: &str, seed: u64) -> BuildHistories {
         }
     });
     res.into_inner().unwrap()
+}
+
+// ------------------------------------------------------------------ C17: iteration work
+/// `GraphInfo::iter` / `iter_rev` on graph families with exponentially many paths
+/// (layered, complete): the walk must stay polynomial.  Instances in ascending
+/// order of their path count; thread CPU time of the two walks against a budget
+/// that is orders of magnitude above what a one-visit-per-node walk needs; the
+/// first instance over budget is the violation (and ends the tier).
+pub struct IterWork {
+    pub instances: u64,
+    pub max_cpu_s: f64,
+    pub violation: Option<(Violation, BuildCase)>,
+    pub hashes: Vec<u64>,
+}
+
+pub const ITER_CPU_BUDGET_S: f64 = 1.0;
+
+/// The iteration-work judgement for one spec (replay of an `iter-work` case).
+pub fn eval_iter_work(spec: &GraphSpec) -> Vec<Violation> {
+    let n = spec.n();
+    let Ok(b) = build_recorded(spec) else { return vec![] };
+    let gi = GraphInfo::from_graph(&b.g, |f| f.id);
+    let t0 = crate::c18::thread_cpu_s();
+    let fwd = gi.iter().count();
+    let rev = gi.iter_rev().count();
+    let cpu = crate::c18::thread_cpu_s() - t0;
+    let mut out = vec![];
+    if fwd != n || rev != n {
+        out.push(v("C17", "iteration-incomplete", format!("iter yielded {fwd} and iter_rev {rev} of {n} nodes")));
+    } else if cpu > ITER_CPU_BUDGET_S {
+        out.push(v("C17", "iteration-cpu-time-exceeds-budget", format!("GraphInfo::iter + iter_rev over {n} nodes used {cpu:.2} s of CPU (budget {ITER_CPU_BUDGET_S} s)")));
+    }
+    out
+}
+
+pub fn graph_info_iter_work() -> IterWork {
+    let mut res = IterWork { instances: 0, max_cpu_s: 0.0, violation: None, hashes: vec![] };
+    let mut specs: Vec<(u64, String, GraphSpec)> = vec![];
+    let plain = |n: usize| -> Vec<TestFn> { (0..n).map(|id| TestFn { id, reads: vec![], writes: vec![] }).collect() };
+    for l in [4usize, 8, 12, 16, 20, 24, 28, 32, 40] {
+        let n = 2 * l;
+        let mut edges = vec![];
+        for i in 0..l - 1 {
+            for a in 0..2 {
+                for b in 0..2 {
+                    edges.push((2 * i + a, 2 * (i + 1) + b, if (a + b) % 2 == 0 { Kind::Logic } else { Kind::Contains }));
+                }
+            }
+        }
+        specs.push((1u64 << l.min(62), format!("2-wide ladder of {l} layers"), GraphSpec { fns: plain(n), edges, batches: vec![] }));
+    }
+    for n in [8usize, 12, 16, 20, 24, 28, 32, 40] {
+        let edges = (0..n).flat_map(|i| (i + 1..n).map(move |j| (i, j, Kind::Logic))).collect();
+        specs.push((1u64 << (n - 2).min(62), format!("complete DAG on {n} functions"), GraphSpec { fns: plain(n), edges, batches: vec![] }));
+    }
+    specs.sort_by_key(|s| s.0);
+    for (_paths, what, spec) in specs {
+        let n = spec.n();
+        let Ok(b) = build_recorded(&spec) else { continue };
+        let gi = GraphInfo::from_graph(&b.g, |f| f.id);
+        let t0 = crate::c18::thread_cpu_s();
+        let fwd: Vec<usize> = gi.iter().copied().collect();
+        let rev: Vec<usize> = gi.iter_rev().copied().collect();
+        let cpu = crate::c18::thread_cpu_s() - t0;
+        res.instances += 1;
+        res.max_cpu_s = res.max_cpu_s.max(cpu);
+        res.hashes.push(hash_of(&spec));
+        let case = BuildCase { spec, fail_pos: 0, mutation: None, labels: vec![], walks: vec![] };
+        if fwd.len() != n || rev.len() != n {
+            res.violation = Some((v("C17", "iteration-incomplete", format!("{what}: iter yielded {} and iter_rev {} of {n} nodes", fwd.len(), rev.len())), case));
+            return res;
+        }
+        if cpu > ITER_CPU_BUDGET_S {
+            res.violation = Some((
+                v("C17", "iteration-cpu-time-exceeds-budget", format!("{what}: GraphInfo::iter + iter_rev over {n} nodes used {cpu:.2} s of CPU (budget {ITER_CPU_BUDGET_S} s; a walk that visits every node once needs microseconds)")),
+                case,
+            ));
+            return res;
+        }
+    }
+    res
 }
